@@ -630,6 +630,7 @@ class Conn:
         self.truncated = False
         self.reading = True
         self.cap = None
+        self.tls_like_read = False    # some recv() of the server on this connection returned bytes that begin like a TLS / SSL record
         self.follow_up_ok = None     # set by _judge: the answer after which the server kept the connection open
 
 
@@ -730,6 +731,12 @@ def _run(ctx):
     def _oplog(kind, sock, info):
         if kind == 'close' or info:       # bytes really moved (an EOF read again and again is not progress)
             sio['n'] += 1
+        if kind == 'recv' and info and looks_like_tls(bytes(info)):
+            # the server tests the first read of EVERY message for a TLS / SSL record, also of the bytes that follow a complete request:
+            # a read that begins like one excuses a close (R7), wherever in the stream it is
+            c = by_addr.get(getattr(sock, 'sim_peer', None))
+            if c is not None:
+                c.tls_like_read = True
     NET.oplog = _oplog
 
     def quiesce(cap=4000):
@@ -989,9 +996,10 @@ def _judge(ctx, c, fail):
     # R7: "or simply closes (TLS handshake on a plain-text port)": the third way out is there for input that is a TLS / SSL record.  The server
     #     closed without having written a byte for this message although the peer is still there (it neither closed nor half-closed, so the
     #     close is the server's own decision) and what it was sent does not begin like such a record (see looks_like_tls): it neither waited
-    #     nor answered.  Only the start of the message is looked at - that is where a handshake is - and any byte >= 0x80 or 0x16 there excuses.
+    #     nor answered.  The start of the message and the start of every read the server made are looked at - the server tests the first read of each message - and a
+    #     byte >= 0x80 or 0x16 there excuses.
     if out == 'closed-silently' and c.sent_mut and not rest:
-        if looks_like_tls(c.raw[:c.sent_mut]):
+        if looks_like_tls(c.raw[:c.sent_mut]) or c.tls_like_read:
             ctx.stat('silent-close-of-tls-like-input')
         else:
             # two root causes apart: the server set out to answer (a response event was fired) but nothing could be written, or it never did
